@@ -148,6 +148,19 @@ func (pq *PrefetchQueue) processPrefetch(req PrefetchRequest) {
 	// from the copy (it is the cache key and the validation opt-out).
 	if opt := prefetchReq.IsEdns0(); opt != nil {
 		opt.SetDo(true)
+		// Only shared entries are refreshed, and a refresh re-asks the
+		// question such an entry answers for everyone. The triggering
+		// client's subnet is not part of that question: forwarded, it
+		// lets the authority scope the refresh to that one client, and
+		// the write-back would file the scoped answer under the shared
+		// key, for every audience.
+		options := opt.Option[:0]
+		for _, o := range opt.Option {
+			if _, isECS := o.(*dns.EDNS0_SUBNET); !isECS {
+				options = append(options, o)
+			}
+		}
+		opt.Option = options
 	} else {
 		prefetchReq.SetEdns0(dnsutil.DefaultMsgSize, true)
 	}
